@@ -871,7 +871,8 @@ def run(ctx):
                         "flags, undefined enumerators — and the payload size enters it only as a lower bound (C04-R3, shared)")
     from rules import c04
     for o in c04.run(ctx).obligations:
-        if o["rule"] == "C04-R3" and o["key"].startswith(("invalid-only-for-protocol-reasons", "defined-values-accepted")):
+        # (the error flags are exactly the protocol's: a mask that also holds a status flag makes a payload a builder can produce invalid)
+        if o["rule"] == "C04-R3" and o["key"].startswith(("invalid-only-for-protocol-reasons", "defined-values-accepted", "error-bits")):
             res.check(o["ok"], "C13-R8", o["key"], o["loc"], o["detail"], o["detail"])
     res.floor("C13-R8", 7)
     # the data comes back whenever there is some: the pointer getter of a (pointer, length) pair answers nullptr only when its own length
